@@ -172,7 +172,7 @@ func main() {
 	sort.SliceStable(jobs, func(a, b int) bool { return jobs[a].Cfg.P+jobs[a].Cfg.K > jobs[b].Cfg.P+jobs[b].Cfg.K })
 	budget := 4 * time.Minute
 	if run.Thorough() {
-		budget = 25 * time.Minute
+		budget = 12 * time.Minute
 	}
 	sdrv.Main(run, jobs, sdrv.Options{
 		Budget: budget,
